@@ -12,6 +12,7 @@ open Sx
 open Model_c09
 
 let fail m = raise (Parse_error m)
+exception Harness_bad of string
 
 let rec tree = function
   | L (A "e" :: ns :: local :: L attrs :: kids) ->
@@ -83,7 +84,7 @@ let xpf = function
 let item = function
   | L [A "ad"; L [A "all"]] -> RAddressData RAllProp
   | L [A "ad"; L (A "props" :: names)] -> RAddressData (RProps (List.map str names))
-  | L [A "o"; ns; local] -> ROther (str ns, str local)
+  | L [A "o"; ns; local] | L [A "o"; ns; local; _] -> ROther (str ns, str local)
   | _ -> fail "item"
 
 let sel = function
@@ -114,6 +115,8 @@ let sobs = function
   | L (A "obs" :: panic :: A status :: calls) ->
     let qs = List.filter_map (function L [A "q"; p; q] -> Some (str p, query q) | _ -> None) calls in
     let gs = List.filter_map (function L [A "g"; p; d] -> Some (str p, data d) | _ -> None) calls in
+    let bads = List.filter_map (function L [A "bad"; A why] -> Some why | _ -> None) calls in
+    (match bads with why :: _ -> raise (Harness_bad why) | [] -> ());
     if List.length qs + List.length gs <> List.length calls then fail "call";
     { so_panic = bool_ panic; so_status = n_of_atom status; so_queries = qs; so_gets = gs }
   | _ -> fail "sobs"
@@ -130,7 +133,11 @@ let bucket n = if n >= 4 then "4+" else string_of_int n
 let () =
   run_file Sys.argv.(1) (fun _ sx ->
     match sx with
-    | [L [A "client"; L (A "us" :: us); ci]; obs] ->
+    | [L (A "client" :: L (A "us" :: us) :: ci :: hist); obs] ->
+      (match hist with
+       | [] -> ()
+       | [L (A "after" :: A mode :: prev)] -> bump ("client_seq_" ^ mode ^ "_step_" ^ bucket (List.length prev))
+       | _ -> fail "client history");
       let us = table_us us in
       let i = cinput ci in
       let den = client_denotation us i in
@@ -155,13 +162,22 @@ let () =
              (match client_model us i with Ok _ -> "body" | Err _ -> "error" | Panic -> "panic")
              (match den with Some _ -> "request" | None -> "nothing") in
          verdict ~agree ~spec ~kf:"-" ~detail)
-    | [L [A "server"; path; _seed; L (A "up" :: up); xr; t]; obs] ->
+    | [L (A "server" :: path :: _seed :: L (A "up" :: up) :: xr :: t :: hist); obs] ->
+      (match hist with
+       | [] -> ()
+       | [L (A "after" :: prev)] -> bump ("server_seq_step_" ^ bucket (List.length prev))
+       | [L (A "overlap" :: _)] -> bump "server_overlapping"
+       | _ -> fail "server history");
       let up = table_up up in
       let path = str path in
       let mutated, xr = match xr with L [A "mut"; y] -> (true, y) | _ -> (false, xr) in
       let x = xreq xr in
       let d = tree t in
-      let o = sobs obs in
+      (match (try Stdlib.Ok (sobs obs) with Harness_bad why -> Stdlib.Error why) with
+       | Stdlib.Error why ->
+         bump "server_obs_bad";
+         verdict ~agree:false ~spec:false ~kf:"-" ~detail:("server: " ^ why)
+       | Stdlib.Ok o ->
       let valid = validate x in
       bump (match x with XQuery _ -> "server_query" | XMultiget _ -> "server_multiget");
       if not mutated then bump (match valid with
@@ -183,5 +199,5 @@ let () =
           (show_res (handle_report up path d))
           (match rfc_read d with Some _ -> "request" | None -> "rejected")
           (match valid with Some _ -> "yes" | None -> "no") in
-      verdict ~agree ~spec ~kf ~detail
+      verdict ~agree ~spec ~kf ~detail)
     | _ -> fail "line")
